@@ -2,6 +2,7 @@
 import os, subprocess, json, re, hashlib, time, shutil, tempfile
 
 VERIF = os.path.dirname(os.path.dirname(os.path.abspath(__file__)))
+REPO = os.environ.get("VERIF_REPO", "/repo")
 LEAN = os.path.join(VERIF, "lean")
 BUILD = os.path.join(VERIF, "build")
 GOENV = dict(os.environ, GOFLAGS="-mod=mod", GOPROXY="off", GOSUMDB="off", GOTOOLCHAIN="local",
@@ -15,6 +16,20 @@ def sh(cmd, cwd=None, env=None, timeout=None):
     return p.returncode, p.stdout
 
 
+def harness_modfile():
+    """go.mod for the harness with the gogu replacement pointing at REPO (kept outside the source dir)."""
+    os.makedirs(BUILD, exist_ok=True)
+    mod = open(os.path.join(VERIF, "harness", "go.mod")).read()
+    mod = re.sub(r"replace github.com/esimov/gogu => \S+", "replace github.com/esimov/gogu => " + REPO, mod)
+    path = os.path.join(BUILD, "harness.mod")
+    if not os.path.exists(path) or open(path).read() != mod:
+        open(path, "w").write(mod)
+    sumsrc = os.path.join(REPO, "go.sum")
+    if os.path.exists(sumsrc):
+        shutil.copyfile(sumsrc, os.path.join(BUILD, "harness.sum"))
+    return path
+
+
 def run_translator(prop, cfg):
     """Regenerate Gen/*.lean from /repo's current source. Returns an error text or ''. (Called under the lake lock.)"""
     if prop not in TRANSLATOR_PROPS:
@@ -26,7 +41,7 @@ def run_translator(prop, cfg):
     rc, out = sh(["go", "build", "-o", exe, "."], cwd=src, env=GOENV, timeout=600)
     if rc != 0:
         return "translator does not build:\n" + out[-2000:]
-    rc, out = sh([exe, "/repo", os.path.join(LEAN, "GoguVerif", "Gen"), os.path.join(BUILD, "facts.json")], env=GOENV,
+    rc, out = sh([exe, REPO, os.path.join(LEAN, "GoguVerif", "Gen"), os.path.join(BUILD, "facts.json")], env=GOENV,
                  timeout=600)
     if rc != 0:
         return "translator failed on /repo:\n" + out[-2000:]
@@ -47,7 +62,7 @@ RACE_BIN = os.path.join(BUILD, "harness_race.test")
 
 
 def build_race_harness():
-    rc, out = sh(["go1.26.8", "test", "-c", "-race", "-tags", "verif", "-o", RACE_BIN, "."],
+    rc, out = sh(["go1.26.8", "test", "-c", "-race", "-tags", "verif", "-modfile", harness_modfile(), "-o", RACE_BIN, "."],
                  cwd=os.path.join(VERIF, "harness"), env=GOENV, timeout=1200)
     return rc == 0, out
 
